@@ -259,10 +259,10 @@ func (formatter *typeFormatter) formatEnumValue(enumObj ast.Object, val any) str
 	memberName := formatEnumMemberName(member.Name)
 
 	if referredPkg == "" {
-		return fmt.Sprintf("%s.%s", enumObj.Name, memberName)
+		return fmt.Sprintf("%s.%s", formatObjectName(enumObj.Name), memberName)
 	}
 
-	return fmt.Sprintf("%s.%s.%s", referredPkg, enumObj.Name, memberName)
+	return fmt.Sprintf("%s.%s.%s", referredPkg, formatObjectName(enumObj.Name), memberName)
 }
 
 func (formatter *typeFormatter) formatScalarKind(kind ast.ScalarKind) string {
